@@ -137,7 +137,7 @@ def check_single(ctx, case):
     # inverse law up to rounding
     back = numpy.asarray(smi.undo_scaling(fwd), dtype=float)
     for v, b in zip(vals, back):
-      if abs(v - b) > 32 * EPS * (abs(v) + abs(mid)) + 1e-300:
+      if abs(v - b) > 32 * EPS * (abs(v) + abs(mid) + max([abs(x) for x in nf] + [0.0])) + 1e-300:
         viol("undo_scaling(relative_objective_value(v)) != v", {"v": v, "back": float(b)})
         return
     nondeg = hw is not None and hw >= Fraction(1, 10 ** 8) and not boundary
@@ -182,6 +182,7 @@ def check_single(ctx, case):
     ctx.disagree("negate differs", case)
     return
   mf = [float(x) for x in unfrl(r["fwd"])]
+  vref = max([abs(x) for x in nf] + [0.0])
   if skip:
     ctx.count("skip")
     if mf != fwd.tolist():
@@ -200,13 +201,15 @@ def check_single(ctx, case):
     ctx.disagree(f"midpoint/scale differ: model ({mmid}, {mscale}) impl ({mid}, {scale})", case)
     return
   for v, a, b in zip(vals, mf, fwd):
-    tol = 16 * EPS * mscale * (abs(v) + abs(mmid)) + 1e-300
+    # the midpoint may carry a rounding error relative to the LARGER end point (e.g. computed as min + half-width),
+    # not to its own magnitude: the property says 'up to rounding', not which association order is used
+    tol = 16 * EPS * mscale * (abs(v) + abs(mmid) + vref) + 1e-300
     if abs(a - b) > tol:
       ctx.disagree(f"scaled value differs: v={v} model {a} impl {b} tol {tol}", case)
       return
   for w, a, b in zip(ws, unfrl(r["inv"]), inv):
     a = float(a)
-    if abs(a - b) > 16 * EPS * (abs(a) + abs(mmid)) + 1e-300:
+    if abs(a - b) > 16 * EPS * (abs(a) + abs(mmid) + vref) + 1e-300:
       ctx.disagree(f"undo_scaling differs: w={w} model {a} impl {b}", case)
       return
   for a, b in zip(unfrl(r["fwdVar"]), fvar):
@@ -265,7 +268,7 @@ def check_multi(ctx, case):
     mm = 0.0 if skip else float(unfr(r["infos"][k]["mid"]))
     for a in range(len(fails)):
       m = float(mf[k][a])
-      if abs(m - fwd[a, k]) > 16 * EPS * ms * (abs(cols[k][a]) + abs(mm)) + 1e-300:
+      if abs(m - fwd[a, k]) > 16 * EPS * ms * (abs(cols[k][a]) + abs(mm) + max([abs(x) for x in nf] + [0.0])) + 1e-300:
         ctx.disagree(f"multi scaled value differs col {k} row {a}: model {m} impl {fwd[a, k]}", case)
         return
     ml = float(unfr(r["lies"][k][0]))
@@ -363,7 +366,8 @@ def check_view(ctx, case):
         ms, mm = float(unfr(info["scale"])), float(unfr(info["mid"]))
       lie = float(unfr(r["lies"][k][0]))
       mlie = neg * ms * (lie - mm)
-      tol_l = 16 * EPS * ms * (abs(lie) + abs(mm)) + 1e-300
+      vref = max([abs(x) for x in nf] + [0.0])
+      tol_l = 16 * EPS * ms * (abs(lie) + abs(mm) + vref) + 1e-300
       if abs(mlie - got_lie[k]) > tol_l:
         ctx.disagree(f"view {gname} metric {k}: scaled lie model {mlie} impl {got_lie[k]}", case)
         return
@@ -371,7 +375,7 @@ def check_view(ctx, case):
         if fails[a]:
           continue
         m = float(mf[k][a])
-        if abs(m - got_vals[a, k]) > 16 * EPS * ms * (abs(cols[k][a]) + abs(mm)) + 1e-300:
+        if abs(m - got_vals[a, k]) > 16 * EPS * ms * (abs(cols[k][a]) + abs(mm) + vref) + 1e-300:
           ctx.disagree(f"view {gname} metric {k} row {a}: scaled value model {m} impl {got_vals[a, k]}", case)
           return
         want = max(vcols[k][a], 1e-6) if skip else max(vcols[k][a] * ms * ms, 1e-10)
@@ -380,7 +384,7 @@ def check_view(ctx, case):
           return
       if thrs[k] is not None:
         mt = neg * ms * (thrs[k] - mm)
-        if abs(mt - got_thr[k]) > 16 * EPS * ms * (abs(thrs[k]) + abs(mm)) + 1e-300:
+        if abs(mt - got_thr[k]) > 16 * EPS * ms * (abs(thrs[k]) + abs(mm) + vref) + 1e-300:
           ctx.disagree(f"view {gname} metric {k}: scaled threshold model {mt} impl {got_thr[k]}", case)
           return
 
